@@ -54,8 +54,9 @@ Inductive lent :=
 | LTick (t : nat)
 | LDisp (tok : nat).
 
-(* handler results carry the token of the event instance they were produced for *)
-Definition tokval (tok : nat) (v : Z) : Z := v + 100 * Z.of_nat tok.
+(* handler results carry the token of the event instance they were produced for; negative codes stand for the
+   falsy non-None results (-10: 0, -11: False, -12: ''), which carry no token *)
+Definition tokval (tok : nat) (v : Z) : Z := if v <? 0 then v else v + 100 * Z.of_nat tok.
 
 Record evt := { e_name : nat; e_waiting : Z; e_alert : bool; e_vals : list Z; e_errors : bool;
                 e_dispatched : bool (* ghost *); e_gate : nat (* ghost: times the waitingHandlers gate was passed *) }.
